@@ -3,7 +3,7 @@
 plus extra adversarial alpha-renaming cases (EXTRA)"""
 import re, sys, os, json, shutil, subprocess
 old, new, work = sys.argv[1:4]
-REPO0 = '/tmp/ag/tol/repo0'
+REPO0 = '/tmp/ag/tol2/repo0'
 def load(path, name):
     src = open(path).read()
     m = re.search(r'^\s*%s = (\{|\[)' % name, src, re.M)
@@ -23,8 +23,8 @@ def load(path, name):
         j += 1
     env = {'A': 'let stage = r.read_u16::<BE>()?;'}
     return eval(src[i:j + 1], env)
-tests = [(k, v[0]) for k, v in load('/tmp/ag/tol/tools/selftest/mut.py', 'TESTS').items()]
-tests += [(c[0], c[1]) for c in load('/tmp/ag/tol/tools/selftest/loud.py', 'CASES')]
+tests = [(k, v[0]) for k, v in load('/tmp/ag/tol2/tools/selftest/mut.py', 'TESTS').items()]
+tests += [(c[0], c[1]) for c in load('/tmp/ag/tol2/tools/selftest/loud.py', 'CASES')]
 EXTRA = [
   # swap + fresh names: the reads at 10 / 12 exchanged between the fields, the locals renamed
   ('x_masked_swap', [('let is_raining_bombs = r.read_u8()? != 0;', 'let p = r.read_u8()? != 0;'), ('let is_teams = r.read_u8()? != 0;', 'let q = r.read_u8()? != 0;'),
